@@ -11,17 +11,20 @@ def opCodec (j : Json) : P Json := do
   | "enc_req" =>
     let r ← parseReq (← fld j "msg")
     pure (Json.mkObj [("fc", jNat r.fc), ("out", jPyM jNats (Impl.encReq r)), ("spec", jNats (PduSpec.encReq r)),
-      ("norm", jReq (PduSpec.normReq r))])
+      ("norm", jReq (PduSpec.normReq r)), ("post", jReq (Impl.postEncReq r))])
   | "enc_resp" =>
     let r ← parseResp (← fld j "msg")
     pure (Json.mkObj [("fc", jNat r.fc), ("out", jPyM jNats (Impl.encResp r)), ("spec", jNats (PduSpec.encResp r)),
-      ("norm", jResp (PduSpec.normResp r))])
+      ("norm", jResp (PduSpec.normResp r)), ("post", jResp (Impl.postEncResp r))])
   | "dec_req" =>
     pure (Json.mkObj [("out", jPyM jReq (Impl.decReq (← fNats j "bytes")))])
   | "dec_resp" =>
     match Impl.decResp (← fNats j "bytes") with
     | some r => pure (Json.mkObj [("out", jResp r)])
     | none => pure (Json.mkObj [("out", Json.null)])
+  | "dec_into_resp" =>
+    let o ← parseResp (← fld j "obj")
+    pure (Json.mkObj [("out", jPyM jResp (Impl.decodeIntoResp o (← fNats j "bytes")))])
   | d => throw s!"bad codec dir {d}"
 
 end Driver
